@@ -54,7 +54,23 @@ impl IndRef for AwesomeOscillator {
 		let v = own[0];
 		// +1: a lower peak (swing low) is confirmed now, -1: a higher peak (swing high)
 		let r = self.rev.step(v);
-		let r = if self.follow_impl { -r } else { r };
+		if self.follow_impl {
+			// implementation reading, in the implementation's order: the pivot direction is inverted, the counters are
+			// incremented first, the signal is taken, and only then a counter is cleared by the side of the zero line
+			// the value is on (so a pivot confirmed on the very step the value changes sides still fires)
+			let r = -r;
+			self.highs = self.highs.saturating_add((r < 0) as u32).min(255);
+			self.lows = self.lows.saturating_add((r > 0) as u32).min(255);
+			let buy = r > 0 && self.lows >= self.peaks;
+			let sell = r < 0 && self.highs >= self.peaks;
+			if v < 0.0 {
+				self.highs = 0;
+			}
+			if v > 0.0 {
+				self.lows = 0;
+			}
+			return vec![sig_sign(buy as i32 - sell as i32), sig_sign(self.x.cross(v, 0.0))];
+		}
 		// † follows the implementation: peaks are counted when they are confirmed (`right` steps after
 		// the extremum); a count lasts as long as the value stays on its side of the zero line (a value
 		// of exactly 0 belongs to both sides) and is NOT cleared by a signal: once `conseq_peaks` is
